@@ -842,6 +842,7 @@ func NoFragmentCyclesRule(context *ValidationContext) *ValidationRuleInstance {
 			fragmentName = fragment.Name.Value
 		}
 		visitedFrags[fragmentName] = true
+		verifCount(VerifSiteDetectCycleCall)
 
 		spreadNodes := context.FragmentSpreads(fragment.SelectionSet)
 		if len(spreadNodes) == 0 {
@@ -851,6 +852,7 @@ func NoFragmentCyclesRule(context *ValidationContext) *ValidationRuleInstance {
 		spreadPathIndexByName[fragmentName] = len(spreadPath)
 
 		for _, spreadNode := range spreadNodes {
+			verifCount(VerifSiteDetectCycleSpread)
 
 			spreadName := ""
 			if spreadNode.Name != nil {
